@@ -443,6 +443,70 @@ func head2(d []simrt.Decision, n int) []simrt.Decision {
 
 func (w *Worker) probesC16(spec *OpSpec, base *Call, ref *runOutcome) {
 	p := w.St.Probes
+	// input-shape probes: the rare configurations the generators are meant to reach
+	if len(base.IDs) > 0 {
+		minZ, maxZ := int64(99), int64(-1)
+		seen := map[string]bool{}
+		dup, neg, edge := false, false, false
+		for _, id := range base.IDs {
+			a := parseInts(id)
+			if len(a) < 4 {
+				continue
+			}
+			if a[0] < minZ {
+				minZ = a[0]
+			}
+			if a[0] > maxZ {
+				maxZ = a[0]
+			}
+			if seen[id] {
+				dup = true
+			}
+			seen[id] = true
+			if a[len(a)-1] < 0 || (len(a) == 4 && a[1] < 0) {
+				neg = true
+			}
+			if len(a) == 5 && (a[1] <= 1 || a[1] >= pow2(a[0])-2) {
+				edge = true
+			}
+		}
+		if maxZ-minZ >= 2 {
+			p["input_list_with_zoom_spread_ge_2"]++
+		}
+		if dup {
+			p["base_list_with_repeated_entries"]++
+		}
+		if neg {
+			p["input_with_negative_vertical_index"]++
+		}
+		if edge {
+			p["input_next_to_the_wraparound_column"]++
+		}
+	}
+	if len(base.Tiles) > 1 {
+		hz := map[int64]bool{}
+		for _, t := range base.Tiles {
+			hz[t[0]] = true
+		}
+		if len(hz) > 1 {
+			p["tile_list_mixing_horizontal_zooms"]++
+		}
+	}
+	if len(base.QVs) > 1 {
+		qz := map[int64]bool{}
+		for _, q := range base.QVs {
+			qz[q.QZoom] = true
+		}
+		if len(qz) > 1 {
+			p["quadkey_list_mixing_zooms"]++
+		}
+		if base.QVs[0].MaxH > base.QVs[0].MinH {
+			p["quadkey_height_range_mode"]++
+		}
+	}
+	if len(base.IDs) > 0 && equalStrings(base.IDs, base.IDs2) {
+		p["both_list_arguments_equal"]++
+	}
 	switch spec.Name {
 	case "merge_ext", "merge":
 		in := map[string]bool{}
